@@ -91,6 +91,15 @@ def cases(ctx):
                 if n % ctx.nshards == ctx.shard:
                     yield ('call', name, k, rnd.getrandbits(40))
                 n += 1
+    # (1b) every ordered pair of table entries called one after the other with the SAME arguments (state shared between builtins: caches, memos)
+    SAME = ['(s, rx)', '("abcabc", "b(c)")', '("aXbX", "X")', '(s, "b")', '(l)', '(d)', '(ls, ", ")', '(nest)', '("a,b", ",")', '(lt)']
+    names_ = ctx.fn_names
+    for i, f in enumerate(names_):
+        for j, g in enumerate(names_):
+            if n % ctx.nshards == ctx.shard:
+                for a in (rnd.sample(SAME, 2) if ctx.quick else SAME):
+                    yield ('pair', f, g, a)
+            n += 1
     # (2)/(3) grammar-derived compositions over builtin and data names
     for _ in range(ctx.scale(6000, 100000)):
         yield ('gram', rnd.getrandbits(40))
@@ -134,6 +143,14 @@ def run_case(case, ctx):
     elif kind == 'call':
         src = call_source(ctx, case[1], case[2], case[3])
         ctx.cov('builtins_called', case[1])
+    elif kind == 'pair':
+        # two evals in a row in this process; the second one is the monitored one (the first only has to have happened)
+        try:
+            ctx.P.eval('%s%s' % (case[1], case[3]), host_names(), None, 3000)
+        except Exception:
+            pass
+        src = '%s%s' % (case[2], case[3])
+        ctx.count('same_argument_pairs')
     else:
         src = gram_source(ctx, case[1])
     names = host_names()
@@ -141,6 +158,8 @@ def run_case(case, ctx):
     ctx.M1.lambdas.clear()
     before = ctx.counters['node_results_censused']
     random.seed(case[-1] if isinstance(case[-1], int) else 0)
+    if kind == 'pair':
+        random.seed(1)
     M6 = ctx.M6
     result, exc = None, None
     M6.begin()
